@@ -155,7 +155,7 @@ fn val(v: u8) -> Vec<u8> {
 /// One real perspective under test with its provider.
 struct Subject<SP: StorageProvider> {
     d: Driver<SP>,
-    ckpt_indices: Vec<usize>,
+    ckpt_indices: Vec<(usize, usize)>,
 }
 
 impl<SP: StorageProvider> Subject<SP> {
@@ -187,13 +187,13 @@ impl<SP: StorageProvider> Subject<SP> {
             }
             Op::Ckpt => {
                 let c = p.checkpoint();
-                self.ckpt_indices.push(c.index);
+                self.ckpt_indices.push((c.index, c.pending));
                 Ok(())
             }
             Op::Revert(i) => {
-                let index = self.ckpt_indices[i as usize];
+                let (index, pending) = self.ckpt_indices[i as usize];
                 self.ckpt_indices.truncate(i as usize + 1);
-                p.revert(Checkpoint { index }).map_err(|e| format!("[{tag}] revert: {e:?}"))
+                p.revert(Checkpoint { index, pending }).map_err(|e| format!("[{tag}] revert: {e:?}"))
             }
         }
     }
